@@ -58,8 +58,8 @@ Definition guardians_of (ks : list bytes) : bytes := be 1 (Z.of_nat (length ks))
 
 Definition rtrue (e : rv) : bool := match e with Some (RBool true) => true | _ => false end.
 
-(* the signature loop of parseAndVerifyVAA: guardian indices strictly above the previous one (from -1), key [guardianIndex] of the
-   stored set = ethEcRecover!(hash, r ++ s ++ (v + 27)).  [recover] is the node-side oracle (go-ethereum Ecrecover + Keccak + last
+(* the signature loop of parseAndVerifyVAA: guardian indices strictly above the previous one (from -1), the slot [ral_key_slot
+   guardianIndex] (generated) of the stored set = ethEcRecover!(hash, r ++ s ++ (v + 27)).  [recover] is the node-side oracle (go-ethereum Ecrecover + Keccak + last
    20 bytes over r ++ s ++ v); the VM's ethEcRecover! is that same function on the signature with its last byte lowered by 27 *)
 Section SigLoop.
 Variable recover : bytes -> bytes -> option bytes.
@@ -76,7 +76,7 @@ Fixpoint ral_sig_loop (h guardians : bytes) (last : Z) (recs : list (Z * bytes))
   | [] => true
   | (gi, sg) :: t =>
     if negb (if ral_index_strict then last <? gi else last <=? gi) then false else
-    match slice sg (fst ral_recid_slice) (snd ral_recid_slice), slice guardians (Z.to_nat (1 + gi * 20)) (Z.to_nat (1 + gi * 20 + 20)) with
+    match slice sg (fst ral_recid_slice) (snd ral_recid_slice), slice guardians (Z.to_nat (fst (ral_key_slot gi))) (Z.to_nat (snd (ral_key_slot gi))) with
     | Some rb, Some key =>
       if 256 <=? unbe rb + ral_recid_plus then false else       (* u256To1Byte! aborts *)
       match eth_ec_recover h (firstn 64 sg ++ be 1 (unbe rb + ral_recid_plus)) with
